@@ -43,9 +43,13 @@ def _seed_variants(prop: str) -> list:
                 m = json.load(fh)
         except Exception:
             continue
-        if m.get("property") != prop or str(m.get("detected_by", "")).upper().startswith("NOT DETECTED"):
+        det = str(m.get("detected_by", "")).upper()
+        if m.get("property") != prop or det.startswith("NOT DETECTED"):
             continue
-        out.append(V(f"stored seed {m['id']}", None, None, None, None, patch=os.path.join(os.path.dirname(meta), "patch.diff")))
+        # a seed that a later fix: commit of the library made harmless (its demonstration passes) is a twin: it must be silent
+        neutral = det.startswith("NEUTRALISED")
+        out.append(V(f"stored seed {m['id']}" + (" (neutralised by a later fix: twin)" if neutral else ""), None, None, None, None, twin=neutral,
+                     patch=os.path.join(os.path.dirname(meta), "patch.diff")))
     return out
 
 
@@ -81,8 +85,10 @@ def _run_one(args):
             try:
                 got = _findings(prop, tmp)
             except AnalysisError as e:
-                return (v.name, "detected-as-analysis-error", str(e)[:200])
+                return (v.name, "detected-as-analysis-error" if not v.twin else "twin-analysis-error", str(e)[:200])
             new = {k: r_ for k, r_ in got.items() if k not in base}
+            if v.twin:
+                return (v.name, "silent" if not new else "FALSE-ALARM", "; ".join(sorted(new))[:300])
             return (v.name, "detected", sorted(new)[0][:200]) if new else (v.name, "MISSED", "no new finding")
         path = os.path.join(tmp, "src", "onnx_ir", v.file)
         with open(path, encoding="utf-8") as fh:
